@@ -176,6 +176,10 @@ def oracle(w):
     bad = subseq(w.ncp.up, hs, "the NCP's upper layer") or subseq(w.host_up, ns, "the host's upper layer")
     if bad:
         return bad
+    for i in range(w.ncp.base):  # the NCP's sends that completed (were acknowledged by the host)
+        if w.host_up.count(ns[i]) != 1:
+            return (f"the host acknowledged NCP frame {i} ({hx(ns[i])}) but handed it to its upper layer "
+                    f"{w.host_up.count(ns[i])} times")
     for p, t in w.host_sub:
         r = w.results.get(p)
         if r is not None and r.startswith("!"):
@@ -187,7 +191,7 @@ def oracle(w):
     return None
 
 
-def scenario(rng, window, plan, nh, nn, extra):
+def scenario(rng, window, plan, nh, nn, extra, focus="mix"):
     """plan: fault letters applied to the first wire frames (alternating pick of the non-empty channel,
     host->NCP first); extra: random tail of labels"""
     w = World(window, rng)
@@ -197,7 +201,20 @@ def scenario(rng, window, plan, nh, nn, extra):
         for _ in range(nn):
             w.ncp_submit()
         for f in plan:
-            if w.h2n and (not w.n2h or rng.random() < 0.5):
+            if focus != "mix":
+                other = "h2n" if focus == "n2h" else "n2h"
+                for _ in range(50):  # the other direction is fault-free and prompt
+                    if not (w.h2n if other == "h2n" else w.n2h):
+                        break
+                    w.deliver(other, "v")
+                ch = w.n2h if focus == "n2h" else w.h2n
+                if not ch:
+                    # nothing in flight: let the sender's timer fire once
+                    if not (w.ncp_timeout() if focus == "n2h" else w.host_timeout()):
+                        break
+                    continue
+                w.deliver(focus, f)
+            elif w.h2n and (not w.n2h or rng.random() < 0.5):
                 w.deliver("h2n", f)
             elif w.n2h:
                 w.deliver("n2h", f)
@@ -231,9 +248,15 @@ def cases(ctx):
     depth = ctx.n(5, 7)
     for window in (1, 2, 3):
         for plan in itertools.product(FAULTS, repeat=depth):
-            cs.append((window, "".join(plan), 2, 2, 0))
+            cs.append((window, "".join(plan), 2, 2, 0, "mix"))
+    # one direction at a time, the other fault-free: every fault assignment to the first frames of a burst
+    for window in (1, 2, 3):
+        for plan in itertools.product(FAULTS, repeat=depth + 1):
+            cs.append((window, "".join(plan), 0, 3, 0, "n2h"))
+    for plan in itertools.product(FAULTS, repeat=depth + 1):
+        cs.append((1, "".join(plan), 3, 0, 0, "h2n"))
     for _ in range(ctx.n(400, 6000)):
-        cs.append((rng.choice([1, 2, 3]), "", rng.randint(0, 3), rng.randint(0, 3), rng.randint(20, 120)))
+        cs.append((rng.choice([1, 2, 3]), "", rng.randint(0, 3), rng.randint(0, 3), rng.randint(20, 120), "mix"))
     return cs
 
 
@@ -241,12 +264,13 @@ def run(ctx):
     logging.disable(logging.CRITICAL)
     nontriv = 0
     complete = 0
-    for i, (window, plan, nh, nn, extra) in enumerate(cases(ctx)):
+    for i, (window, plan, nh, nn, extra, focus) in enumerate(cases(ctx)):
         seed = ctx.rng.getrandbits(32)
         import random
 
-        w, bad, failed_link = scenario(random.Random(seed), window, plan, nh, nn, extra)
+        w, bad, failed_link = scenario(random.Random(seed), window, plan, nh, nn, extra, focus)
         ctx.cov["evaluations"] += 1
+        ctx.count(f"focus:{focus}")
         faults = sum(1 for l in w.labels if l.endswith((":x", ":c", ":d", ":s")) or l in ("ht", "nt"))
         if faults and (w.ncp.up or w.host_up):
             nontriv += 1
@@ -258,12 +282,12 @@ def run(ctx):
         elif len(w.ncp.up) == len(w.host_sub) - sum(1 for p, _ in w.host_sub if w.results.get(p) == "cancelled" and p not in w.ncp.up) and len(w.host_up) == len(w.ncp.sub):
             complete += 1
         if bad:
-            ctx.violation(bad, {"kind": "link"}, {"window": window, "plan": plan, "nh": nh, "nn": nn, "extra": extra, "seed": seed, "labels": w.labels})
+            ctx.violation(bad, {"kind": "link"}, {"window": window, "plan": plan, "nh": nh, "nn": nn, "extra": extra, "seed": seed, "focus": focus, "labels": w.labels})
         if i % 700 == 3:
             ctx.sample({"window": window, "plan": plan, "labels": w.labels[:30], "ncp_up": [hx(x) for x in w.ncp.up][:6], "host_up": [hx(x) for x in w.host_up][:6], "results": {hx(k): v for k, v in list(w.results.items())[:6]}})
     ctx.cov["distinct_nontrivial"] = nontriv
     ctx.count("runs_fully_delivered", complete)
-    ctx.cov["rule"] = (f"NCP windows 1..3 x every assignment of {{deliver, drop, corrupt, duplicate, stall}} to the first {ctx.n(5, 7)} wire frames of a 2+2-message exchange (exhaustive), then fair completion; "
+    ctx.cov["rule"] = (f"NCP windows 1..3 x every assignment of {{deliver, drop, corrupt, duplicate, stall}} to the first {ctx.n(5, 7)} wire frames of a 2+2-message exchange, and to the first {ctx.n(5, 7) + 1} frames of a 3-message burst in one direction with the other direction fault-free (exhaustive), then fair completion; "
                        "random runs of 20..120 labels (submissions on both sides, caller cancellation, host/NCP timeouts, faulty deliveries) with up to 3+3 initial messages, frame numbers wrapping; "
                        "non-trivial = at least one fault and at least one delivery; schedules are seeded, so distinct by construction")
     ctx.exhaustive = True
@@ -277,7 +301,7 @@ def replay(ctx, obj):
 
     logging.disable(logging.CRITICAL)
     r = obj["replay"]
-    w, bad, _ = scenario(random.Random(r["seed"]), r["window"], r["plan"], r["nh"], r["nn"], r["extra"])
+    w, bad, _ = scenario(random.Random(r["seed"]), r["window"], r["plan"], r["nh"], r["nn"], r["extra"], r.get("focus", "mix"))
     print(f"replay window={r['window']} plan={r['plan']!r} labels={w.labels}: {'FAILS: ' + bad if bad else 'ok'}")
     if bad:
         print(f"VIOLATION property={ctx.pid} replay=replay")
